@@ -4,75 +4,9 @@ import (
 	corev1 "k8s.io/api/core/v1"
 	netv1 "k8s.io/api/networking/v1"
 	metav1 "k8s.io/apimachinery/pkg/apis/meta/v1"
-	"k8s.io/apimachinery/pkg/apis/meta/v1/unstructured"
-	"k8s.io/apimachinery/pkg/runtime"
-	"k8s.io/cli-runtime/pkg/resource"
 
 	"github.com/np-guard/netpol-analyzer/pkg/manifests/parser"
 )
-
-// zzInfo: a resource.Info for a typed object. Under symgo the (reflection based) unstructured conversion
-// is an environment stub that hands back the registered typed object; natively the real converter is
-// used in both directions.
-func zzInfo(kind, apiVersion string, typed interface{}) *resource.Info {
-	var content map[string]interface{}
-	if vf_Symbolic() {
-		content = map[string]interface{}{"kind": kind, "apiVersion": apiVersion, "zz_typed": typed}
-	} else {
-		c, err := runtime.DefaultUnstructuredConverter.ToUnstructured(typed)
-		if err != nil {
-			panic(err)
-		}
-		c["kind"], c["apiVersion"] = kind, apiVersion
-		content = c
-	}
-	return &resource.Info{Source: kind + ".yaml", Object: &unstructured.Unstructured{Object: content}}
-}
-
-func zzInfosOf(objs []parser.K8sObject) []*resource.Info {
-	var infos []*resource.Info
-	for i := range objs {
-		o := &objs[i]
-		switch o.Kind {
-		case parser.Namespace:
-			infos = append(infos, zzInfo(o.Kind, "v1", o.Namespace))
-		case parser.Deployment:
-			infos = append(infos, zzInfo(o.Kind, "apps/v1", o.Deployment))
-		case parser.NetworkPolicy:
-			infos = append(infos, zzInfo(o.Kind, "networking.k8s.io/v1", o.NetworkPolicy))
-		case parser.Pod:
-			infos = append(infos, zzInfo(o.Kind, "v1", o.Pod))
-		}
-	}
-	return infos
-}
-
-// bad / irrelevant documents
-func zzBadInfo(k int) (info *resource.Info, severe bool) {
-	switch k {
-	case 0: // a kind the analysis does not use
-		return &resource.Info{Source: "cm.yaml", Object: &unstructured.Unstructured{Object: map[string]interface{}{"kind": "ConfigMap", "apiVersion": "v1",
-			"metadata": map[string]interface{}{"name": "cm", "namespace": "ns1"}}}}, false
-	case 1: // not an unstructured object at all
-		return &resource.Info{Source: "typed.yaml", Object: &corev1.Pod{}}, true
-	default: // a used kind that fails schema conversion
-		content := map[string]interface{}{"kind": "NetworkPolicy", "apiVersion": "networking.k8s.io/v1",
-			"metadata": map[string]interface{}{"name": "broken", "namespace": "ns1"}}
-		if vf_Symbolic() {
-			content["zz_fail"] = true
-		} else {
-			content["spec"] = "not-an-object" // the real converter rejects a string where a struct is expected
-		}
-		return &resource.Info{Source: "broken.yaml", Object: &unstructured.Unstructured{Object: content}}, true
-	}
-}
-
-func zzInsertInfo(infos []*resource.Info, pos int, x *resource.Info) []*resource.Info {
-	res := make([]*resource.Info, 0, len(infos)+1)
-	res = append(res, infos[:pos]...)
-	res = append(res, x)
-	return append(res, infos[pos:]...)
-}
 
 // C13: irrelevant / malformed documents never change the connections; each malformed one is a severe error;
 // stop-on-first-error yields no connections
@@ -133,4 +67,75 @@ func ZZ_C13_BadDocuments() {
 		}
 	}
 	vf_Observe("sev", sev)
+}
+
+// C13 through ConnlistFromDirPath: the scanner is environment (under symgo an in-memory directory, natively real
+// files in a temporary directory). Documents: the good ones, at most one irrelevant / schema-broken document and
+// at most one syntactically broken file, each at any position; stopOnError on/off.
+func ZZ_C13_DirPath() {
+	p, e := zzPortVar("np.p"), zzPortVar("np.e")
+	vf_Assume(p <= e)
+	x := zzProbeX()
+	good := []parser.K8sObject{
+		zzNsObj("ns1", nil),
+		zzDeployObj("ns1", "a", map[string]string{"app": "a"}, nil),
+		zzDeployObj("ns1", "b", map[string]string{"app": "b"}, nil),
+		zzNetpolObj("ns1", "np1", netv1.NetworkPolicySpec{
+			PodSelector: metav1.LabelSelector{MatchLabels: map[string]string{"app": "a"}},
+			Ingress: []netv1.NetworkPolicyIngressRule{{From: []netv1.NetworkPolicyPeer{{PodSelector: zzSel("app", "b")}},
+				Ports: []netv1.NetworkPolicyPort{zzPortRange(corev1.ProtocolTCP, p, e)}}},
+		}),
+	}
+	base, _, err := NewConnlistAnalyzer(WithMuteErrsAndWarns()).ConnlistFromResourceInfos(zzInfosOf(good))
+	vf_Assert(err == nil, "clean-input-analysed")
+	infos := zzInfosOf(good)
+	nsevere := 0
+	switch vf_Choose("bad", 3) {
+	case 1: // a kind the analysis does not use
+		bi, _ := zzBadInfo(0)
+		infos = zzInsertInfo(infos, vf_Choose("pos", len(infos)+1), bi)
+	case 2: // a used kind that fails schema conversion
+		bi, _ := zzBadInfo(2)
+		infos = zzInsertInfo(infos, vf_Choose("pos", len(infos)+1), bi)
+		nsevere++
+	}
+	var badAt []int
+	if vf_Choose("broken", 2) == 1 {
+		badAt = []int{vf_Choose("broken.pos", len(infos)+1)}
+		nsevere++
+	}
+	dir := vf_RegisterDir("c13", infos, badAt)
+	stop := vf_Choose("stop", 2) == 1
+	opts := []ConnlistAnalyzerOption{WithMuteErrsAndWarns()}
+	if stop {
+		opts = append(opts, WithStopOnError())
+	}
+	ca := NewConnlistAnalyzer(opts...)
+	conns, _, err := ca.ConnlistFromDirPath(dir)
+	sev := 0
+	for _, ce := range ca.Errors() {
+		if ce.IsSevere() {
+			sev++
+		}
+		vf_Assert(!ce.IsFatal(), "no-fatal-error")
+	}
+	if stop && nsevere > 0 {
+		vf_Assert(sev >= 1, "each-malformed-document-is-a-severe-error")
+		vf_Assert(err != nil || len(conns) == 0, "stop-on-error-yields-no-connections")
+		return
+	}
+	vf_Assert(sev == nsevere, "each-malformed-document-is-a-severe-error")
+	vf_Assert(err == nil, "analysis-continues")
+	bm, _ := zzConnMap(base)
+	gm, _ := zzConnMap(conns)
+	vf_Assert(len(bm) == len(gm), "same-pairs")
+	for k, cs := range bm {
+		g, ok := gm[k]
+		vf_Assert(ok, "same-pairs")
+		if ok {
+			vf_Assert(zzSameDen(cs, g, x), "same-connections")
+		}
+	}
+	vf_Observe("sev", sev)
+	vf_Observe("pairs", len(gm))
 }
